@@ -702,6 +702,9 @@ pub fn special_terms() -> Vec<T> {
         // two parents that use both argument orders of a class that becomes symmetric later
         node2("add", node2("mul", node2("add", tvar(0), tvar(1)), tvar(0)), node2("mul", node2("add", tvar(1), tvar(0)), tvar(0))),
         tsum(100, node2("add", node2("mul", node2("mul", tvar(100), tvar(0)), tvar(100)), node2("mul", node2("mul", tvar(0), tvar(100)), tvar(100)))),
+        // let x = y in (x + neg x): the body's node mentions a slot twice that becomes redundant, then is extracted by let-subst
+        tlet(100, node2("add", tvar(100), node1("neg", tvar(100))), tvar(0)),
+        tlet(100, node2("add", node2("add", tvar(100), node1("neg", tvar(100))), tvar(1)), tvar(0)),
     ]
 }
 
